@@ -174,6 +174,8 @@ def spec_selected(rel: str, incl: list[str], excl: list[str]) -> bool:
 
 TRIGGER = "import numpy as np\na = np.nan\nif a == np.nan:\n    pass\n"
 DEP_TRIGGER = "import xml.etree.ElementTree as ET\net = ET.parse('some.xml')\n"
+SG_TRIGGER = "import random\n\nx = random.random()\n"
+SG_CODEMOD = "pixee:python/secure-random"
 DEP_CODEMOD = "pixee:python/use-defusedxml"
 FF_CODEMOD = "pixee:python/numpy-nan-equality"
 SAST_CODEMOD = "sonar:python/numpy-nan-equality"
@@ -187,9 +189,15 @@ def e2e_case(case):
     rng = random.Random(case["seed"])
     root = common.tmpdir("c05")
     try:
-        proj, outside, files, has_trigger, links = make_tree(root, rng, TRIGGER)
+        proj, outside, files, has_trigger, links = make_tree(root, rng, SG_TRIGGER if case["mode"] == "ffsg" else TRIGGER)
         incl = gen_pats(rng, list(files), rng.randint(0, 2), True) if rng.random() < 0.6 else []
         excl = gen_pats(rng, list(files), rng.randint(0, 2), True) if rng.random() < 0.6 else []
+        if case["mode"] == "ffsg":
+            # a rule-detected codemod; whole-file patterns only (its edit touches two lines)
+            incl, excl = [p.split(":")[0] for p in incl], [p.split(":")[0] for p in excl]
+            if case.get("exclude_all_triggers"):
+                # no selected file has a finding: the detector must not go looking elsewhere
+                incl, excl = [], sorted(p for p, t in has_trigger.items() if t)
         # only whole-file semantics are judged here: strip nothing, but avoid line suffixes that hit the trigger line (3)
         hit = (":1", ":2") if case["mode"] == "dep" else (":3",)   # the line(s) the trigger is rewritten on
         incl = [p for p in incl if not p.endswith(hit)]
@@ -217,9 +225,9 @@ def e2e_case(case):
             cid = DEP_CODEMOD
             eff_incl = incl or list(D.DEFAULT_INCLUDED_PATHS)
             eff_excl = excl or list(D.DEFAULT_EXCLUDED_PATHS)
-        elif mode == "ff":
-            r = e2e.run(proj, ["--codemod-include", FF_CODEMOD] + args)
-            cid = FF_CODEMOD
+        elif mode in ("ff", "ffsg"):
+            cid = FF_CODEMOD if mode == "ff" else SG_CODEMOD
+            r = e2e.run(proj, ["--codemod-include", cid] + args)
             eff_incl = incl or list(D.DEFAULT_INCLUDED_PATHS)
             eff_excl = excl or list(D.DEFAULT_EXCLUDED_PATHS)
         else:
@@ -290,6 +298,8 @@ def corr(ctx):
 
 def search(ctx):
     cases = [{"seed": ctx.rng.randint(0, 10**9), "mode": m} for m in ["ff"] * ctx.pick(24, 160) + ["sast"] * ctx.pick(16, 100) + ["dep"] * ctx.pick(6, 30)]
+    cases += [{"seed": ctx.rng.randint(0, 10**9), "mode": "ffsg"} for _ in range(ctx.pick(4, 24))]
+    cases += [{"seed": ctx.rng.randint(0, 10**9), "mode": "ffsg", "exclude_all_triggers": True} for _ in range(ctx.pick(2, 8))]
     for c, r in zip(cases, impl.pool_map(e2e_case, cases)):
         if r[0] != "ok":
             ctx.broke("c05 e2e harness", r[1])
